@@ -124,7 +124,7 @@ func Harness_C02_kernel_4() { c02kernel(4) }
 func c02split(n int) {
 	acc, ps, d1, total := c02setup(n)
 	d2 := verif_Int("delta2")
-	verif_Assume(d2.IsPositive())
+	verif_Assume(verif_And(d2.IsPositive(), d2.LT(sdk.NewInt(1<<62)))) // block gaps below 2^62, as in c02setup
 	aA, pA, odA, _ := c02settle(acc, append([]types.Payment{}, ps...), d1, total)
 	if odA {
 		return
